@@ -112,6 +112,18 @@ def special_frames(rng):
     for n in (300, 600, 1100, 9000):
         out.append((b"$GNTXT," + bytes(0x41 + (k % 26) for k in range(n)) + b"*00\r\n", "NMEA"))
         out.append((b"$P" + bytes(rng.choice(b"\x00\x01\xb5\x62\xd3\xff0123") for _ in range(n)) + b"\n", "NMEA"))
+    # RTCM3 runts (0- / 1-byte payload, rejected by the parser) whose payload or CRC bytes are frame-start bytes
+    for v in range(256):
+        fr = rtcm_frame(bytes((v,)))
+        if v in (0xB5, 0x24, 0xD3) or any(b in (0xB5, 0x24, 0xD3) for b in fr[-3:]):
+            out.append((fr, "RTCM"))
+    for crc in (b"\xb5\x62\x05", b"\x24\x47\x4e", b"\x00\xd3\x00", b"\x00\x00\xb5"):
+        out.append((b"\xd3\x00\x00" + crc, "RTCM"))
+    # frames whose own header bytes contain the sync characters (id b5 + length 0x..62, length 0x62b5, class/id b5 62)
+    out.append((frame(0x77, 0xB5, bytes(0x62)), "UBX"))
+    out.append((frame(0xB5, 0x62, b"\x01\x02\x03"), "UBX"))
+    out.append((frame(0x04, 0x02, bytes(0x20 + (k % 90) for k in range(0x62B5))), "UBX"))
+    out.append((frame(0x62, 0xB5, b"\x62\xb5\x62"), "UBX"))
     # payload lengths at the sign bit of the 16-bit length field and at its maximum
     for n in (32767, 32768, 40000, 65535):
         out.append((frame(0x04, 0x02, bytes(0x20 + (k % 90) for k in range(n))), "UBX"))
@@ -244,7 +256,7 @@ def obs_runs(case):
         r = rd.run_reader(data, filt=pl.get("filter", 7), quit=pl.get("quit", 1), parsing=bool(pl.get("parsing", 1)),
                           handler=bool(pl.get("handler", 1)), msgmode=mm, validate=va, pbf=pbf,
                           keep_reads=bool(pl.get("reads", 0)), labelmsm=lm, bursts=case.get("bursts", ()), pauses=case.get("pauses", ()), kind=case.get("streamkind", "min"),
-                          resume=bool(pl.get("resume", 0)),
+                          resume=bool(pl.get("resume", 0)), companion=bytes.fromhex(case["companion"]) if case.get("companion") else None,
                           poll=case["prop"] == "C07")  # C07 speaks of successive read() calls: a polling caller asks again after (None, None)
         r["cut"] = cut
         r["reads"] = 1 if pl.get("reads", 0) and case.get("streamkind") != "sock" and not case.get("pauses") else 0
